@@ -306,6 +306,11 @@ def moveVertex (m : Mesh) (r loc : Nat) : Mesh :=
 
 def locOf (vs : List Vtx) (i : Nat) : Nat := ((vs[i]?).map (·.loc)).getD 0
 
+/-- `mesh.vertices[r1 mod n].move_to(mesh.vertices[r2 mod n].position)`: the coordinates are *copied*, the two vertices
+    are at the same place afterwards but stay two vertices (a later move of one does not move the other) -/
+def moveOnto (m : Mesh) (r1 r2 : Nat) : Mesh :=
+  moveVertex m r1 (locOf m.lists.verts (r2 % m.lists.verts.length))
+
 /-- the loop of `Mesh.backport`: `op.bottom_face.update(...)`, `op.top_face.update(...)` for every
     (block, operation it was created from); an operation is an object, so every depot entry with
     that identity changes. -/
@@ -408,6 +413,7 @@ inductive Step where
   | merge (master slave : String)
   | write
   | addGeometry (name : String) (props : List String)
+  | moveOnto (r1 r2 : Nat)
   deriving Repr
 
 /-- one call; a rejected call (backport of a mesh that is not assembled) leaves the state alone -/
@@ -427,6 +433,7 @@ def step (m : Mesh) : Step → Mesh
   | .merge a b => mergePatches m a b
   | .write => (write m).1
   | .addGeometry n ps => addGeometry m n ps
+  | .moveOnto r1 r2 => moveOnto m r1 r2
 
 def run (m : Mesh) (h : List Step) : Mesh := h.foldl step m
 
@@ -482,6 +489,7 @@ def parseStep? (s : String) : Option Step :=
   | ["clr"] => some .clear
   | ["bkp"] => some .backport
   | ["mv", r, l] => do some (.move (← r.toNat?) (← l.toNat?))
+  | ["mvto", r1, r2] => do some (.moveOnto (← r1.toNat?) (← r2.toNat?))
   | ["mod", n, k, st] => some (.modify n k (if st = "-" then none else if st = "0" then some [] else some (st.splitOn "|")))
   | ["def", n, k] => some (.setDefault n k)
   | ["mrg", a, b] => some (.merge a b)
